@@ -137,7 +137,14 @@ AllAxes == {"self", "child", "attribute", "parent", "ancestor", "ancestor-or-sel
 (* Node tests.  The principal node kind of the attribute axis is attribute, *)
 (* of every other axis element.                                            *)
 (* prefixes p -> urn:x, q -> urn:x-y are bound by the caller; *:a is XPath 2.0+ *)
-AllTests == {"node()", "*", "a", "b", "c", "p:a", "p:*", "q:a", "q:*", "*:a", "text()", "comment()", "processing-instruction()"}
+AllTests == {"node()", "*", "a", "b", "c", "p:a", "p:*", "q:a", "q:*", "*:a", "text()", "comment()", "processing-instruction()",
+             \* XPath 2.0 kind tests: independent of the principal node kind of the axis
+             "element()", "element(*)", "element(a)", "element(p:a)", "attribute()", "attribute(*)", "attribute(a)",
+             "document-node()", "document-node(element(a))",
+             "processing-instruction('p')", "processing-instruction(p)", "processing-instruction(zz)",
+             \* XPath 3.0: braced URI literals and the namespace-node() kind test
+             "Q{urn:x}a", "Q{urn:x}*", "Q{}a", "namespace-node()"}
+DocElem == CHOOSE n \in 1..N : parent[n] = 0 /\ kind[n] \in ElemKinds
 Match(ax, t, n) ==
   LET k == KindOf(n) IN
   CASE t = "node()"  -> TRUE
@@ -153,6 +160,19 @@ Match(ax, t, n) ==
     [] t = "text()"  -> k = "t"
     [] t = "comment()" -> k = "c"
     [] t = "processing-instruction()" -> k = "p"
+    [] t \in {"element()", "element(*)"} -> k \in ElemKinds
+    [] t = "element(a)"   -> k = "ea"
+    [] t = "element(p:a)" -> k = "en"
+    [] t \in {"attribute()", "attribute(*)"} -> k \in AttrKinds
+    [] t = "attribute(a)" -> k = "xa"
+    [] t = "document-node()" -> k = "d"
+    [] t = "document-node(element(a))" -> k = "d" /\ kind[DocElem] = "ea"
+    [] t \in {"processing-instruction('p')", "processing-instruction(p)"} -> k = "p"   \* every PI of the universe has target p
+    [] t = "processing-instruction(zz)" -> FALSE
+    [] t = "Q{urn:x}a"    -> IF ax = "attribute" THEN k = "xn" ELSE k = "en"
+    [] t = "Q{urn:x}*"    -> IF ax = "attribute" THEN k = "xn" ELSE k = "en"
+    [] t = "Q{}a"         -> IF ax = "attribute" THEN k = "xa" ELSE k = "ea"
+    [] t = "namespace-node()" -> FALSE      \* namespace nodes are not in the tree universe (see NsStep)
 
 StepSet(ax, t, x) == {m \in AxisSet(ax, x) : Match(ax, t, m)}
 
